@@ -194,7 +194,8 @@ struct Writer {
     template<typename T> std::string run() {
         // the buffer handed to the library must hold what the request transfers
         size_t need = count.size() ? nelms(count) : nelms(target->dataExtent());
-        if (vals->size() < need) throw ProtoError("write buffer shorter than the request");
+        // (a request for more than 2^32 elements cannot be backed by any buffer here: it goes to the library as it is, which must refuse it)
+        if (vals->size() < need && need <= (1ull << 32)) throw ProtoError("write buffer shorter than the request");
         if (!direct && MA<T>::usable && vals->size() == need && isWhole(*target, count, offset) && (wholeTransfers++ % 2 == 0)) {
             MA<T>::write(target, count, *vals);
             return "";
@@ -210,7 +211,7 @@ struct Reader {
     const nix::DataSet *source; nix::DataType dt; nix::NDSize count, offset; size_t n; bool direct;
     template<typename T> std::string run() {
         size_t need = count.size() ? nelms(count) : nelms(source->dataExtent());
-        if (n < need) throw ProtoError("read buffer shorter than the request");
+        if (n < need && need <= (1ull << 32)) throw ProtoError("read buffer shorter than the request");
         if (!direct && MA<T>::usable && n == need && isWhole(*source, count, offset) && (wholeTransfers++ % 2 == 0)) {
             return listTok(MA<T>::read(source, count.size()));
         }
